@@ -14,3 +14,60 @@ def run(R, replay=None):
               "forms, asserts x skips configurations; scanned by the real bandit and by the Gallina plugin models; canonical shapes "
               "judged independently against the statement; non-trivial = at least one finding or internal error")
     family.run_family(R, PROP_FILES, DEPS, ["gen.fam_inject", "gen.fam_misc"], c17.oracle, "inject+misc families", max_quick=3000)
+    assert_paths(R)
+
+
+def assert_paths(R):
+    """B101 'honouring skips globs': the globs are matched against the name under which the file is scanned and reported,
+    so the same file reached by different spellings (relative, ./, through -r, in a sub-directory, absolute) is skipped
+    exactly when a glob matches the reported name.  Through the real command line, with a YAML config."""
+    import fnmatch
+    import json
+    import os
+    import shutil
+
+    import climain
+    import impl
+    import yaml
+    d = os.path.join(impl.scratch(), "c17paths")
+    shutil.rmtree(d, ignore_errors=True)
+    os.makedirs(os.path.join(d, "tests", "unit"))
+    os.makedirs(os.path.join(d, "pkg"))
+    files = ["test_top.py", "conftest.py", "tests/test_a.py", "tests/unit/test_b.py", "pkg/mod.py", "pkg/test_c.py", "pkg/mod_test.py"]
+    for f in files:
+        open(os.path.join(d, f), "w").write("assert zz_x\nexec(zz_y)\n")
+    globsets = [["*/test_*.py"], ["test_*.py"], ["./test_*.py"], ["*test_*.py"], ["*_test.py", "*/test_*.py"], ["tests/*"], ["*/tests/*"],
+                ["./tests/*"], ["*.py"], ["pkg/*"], ["*/pkg/mod.py"], ["/*"], ["nomatch*"], ["t*"], ["[!.]*"], ["?/*"]]
+    spellings = [("rel", lambda f: [f]), ("dot", lambda f: ["./" + f]), ("rec", lambda f: ["-r", "."]), ("abs", lambda f: [os.path.join(d, f)]),
+                 ("rec-abs", lambda f: ["-r", d])]
+    if R.tier == "quick":
+        import random
+        rng = random.Random(R.seed)
+        globsets = globsets[:6] + rng.sample(globsets[6:], 4)
+    for gs in globsets:
+        cf = os.path.join(d, "cfg.yaml")
+        yaml.safe_dump({"assert_used": {"skips": gs}}, open(cf, "w"))
+        for how, argv in spellings:
+            targets = files[:1] if how.startswith("rec") else files
+            for f in targets:
+                r = climain.run_main(["-q", "-f", "json", "-c", cf] + argv(f), cwd=d)
+                R.case(("assert-path", tuple(gs), how, f), nontrivial=True, sample={"skips": gs, "spelling": how, "target": argv(f), "exit": r["exit"]})
+                R.count("assert-path:" + how)
+                inp = {"skips": gs, "argv": ["-q", "-f", "json", "-c", "cfg.yaml"] + argv(f), "cwd": "<dir>", "files": files}
+                try:
+                    j = json.loads(r["stdout"][r["stdout"].index("{"):])
+                except Exception:
+                    R.violations.append({"what": "no report for a scan with assert_used skips %s (%s)" % (gs, r["exception"] or "exit %s" % r["exit"]),
+                                         "input": inp, "observed": (r["traceback"] or r["stderr"] or "")[-300:], "signature": None})
+                    continue
+                scanned = [k for k in j["metrics"] if k != "_totals"]
+                b101 = {x["filename"] for x in j["results"] if x["test_id"] == "B101"}
+                b102 = {x["filename"] for x in j["results"] if x["test_id"] == "B102"}
+                for name in scanned:
+                    want = not any(fnmatch.fnmatch(name, g) for g in gs)
+                    if (name in b101) != want or name not in b102:
+                        R.violations.append({"what": "file scanned as %r with assert_used skips %s: B101 %s, the globs %s that name (B102 %s)"
+                                                     % (name, gs, "reported" if name in b101 else "not reported", "do not match" if want else "match",
+                                                        "reported" if name in b102 else "missing"),
+                                             "input": inp, "observed": sorted(b101), "signature": None})
+    shutil.rmtree(d, ignore_errors=True)
